@@ -175,7 +175,7 @@ def e2e_case(col, case):
 
     if not t.in_ground() or t.pending_kitty is not None:
         bad("incomplete", f"output ends inside a sequence (parser={t.parser_state})")
-    method = case.get("method") or "lines"
+    method = cc.effective_method(case)
     if case["style"] == "kitty":
         judge_kitty(col, case, t, ref, alpha, termbg, w, h, cell, render_px, method, bad)
     else:
@@ -341,7 +341,7 @@ def judge_iterm2(col, case, t, ref, alpha, termbg, w, h, cell, render_px, method
             bad("whole-resolution", f"transmitted resolution {total} is neither the render size {render_px} nor "
                 f"the source size {ref.size}")
     exp = cc.expected_image(ref, alpha, total, termbg)
-    jpeg = case.get("jpeg")
+    jpeg = cc.effective_jpeg(case)      # what was configured, not what the property reads back
     want_fmt = "JPEG" if (jpeg is not None and jpeg >= 0 and exp.mode == "RGB") else "PNG"
     fmts = {im.get("format") for im in imgs}
     if fmts != {want_fmt}:
@@ -433,6 +433,27 @@ def build_cases(tier):
                                         cell=[[2, 3], [8, 16]] if quick else cells[:3] + [None], size=few,
                                         alpha=ALPHAS + ([] if quick else [0.5]), jpeg=[None, 0, 50, 95] if not quick
                                         else [None, 50], rff=[None, False], compress=[0, 4], mix=[False]))
+    # set render method (instance / class level) x per-call override, incl. mismatching pairs, on sources smaller
+    # than the render whose height is not a multiple of the line count (and a larger one)
+    setm = [None, ["instance", "lines"], ["instance", "whole"], ["class", "lines"], ["class", "whole"]]
+    msrc = [["pat", 10, 7, "RGB"], ["pat", 5, 4, "RGBA"], ["pat", 7, 2, "RGB"], ["pat", 64, 32, "RGB"]]
+    for via in ("renderer", "format"):
+        add(_prod(style=["kitty"], identity=["kitty"], set_method=setm, method=[None, "lines", "whole"], src=msrc,
+                  cell=[[9, 18], [2, 3]], size=[[4, 3], [2, 3], [3, 2]], compress=[0, 4], alpha=["default", None],
+                  via=[via]))
+        add(_prod(style=["iterm2"], identity=["wezterm"], set_method=setm + [["instance", "anim"], ["class", "anim"]],
+                  method=[None, "lines", "whole", "anim"], src=msrc, cell=[[9, 18], [2, 3]],
+                  size=[[4, 3], [2, 3], [3, 2]], compress=[4], alpha=["default", None], via=[via]))
+    # jpeg_quality configured on ITerm2Image / a subclass / the instance, every combination incl. "disabled under
+    # an enabled parent": the payload format must follow instance -> nearest class -> default (disabled)
+    for jc in (None, 50, -1):
+        for sub, js in ((False, None), (True, None), (True, -1), (True, 75)):
+            for ji in (None, -1, 50):
+                for c in _prod(style=["iterm2"], identity=["wezterm"], method=["lines", "whole"],
+                               src=[SMALL[2], SMALL[1]], cell=[[2, 3]], size=[[2, 3]], alpha=[None, "default"],
+                               compress=[4], rff=[False]):
+                    c.update(jpeg_cls=jc, jpeg_sub=js, jpeg=ji, sub=sub or None)
+                    cases.append(c)
     # format() entry point
     add(_prod(style=["kitty"], identity=["kitty"], method=["lines", "whole"], src=[SMALL[2], BOUNDARY[1]],
               cell=[[8, 16]], size=few, compress=[0, 4], alpha=[None, "default", "#ff00aa"], z=[0, -5], via=["format"]))
